@@ -245,6 +245,16 @@ impl Parser {
                             }
                             _ => {}
                         },
+                        // `regexp` and `rx` are lexed as operator words
+                        Lexem::Operator(s)
+                            if matches!(mode, RootParsingMode::Root)
+                                && Self::is_regexp_root_option(s) =>
+                        {
+                            self.drop_lexem();
+                            if let Some(options) = self.parse_root_options() {
+                                root_options = options;
+                            }
+                        }
                         Lexem::Comma => {
                             if !path.is_empty() {
                                 roots.push(Root::new(path, root_options));
@@ -386,7 +396,7 @@ impl Parser {
                             }
                         }
                     },
-                    Lexem::Operator(s) if s.eq("rx") => {
+                    Lexem::Operator(s) if Self::is_regexp_root_option(s) => {
                         regexp = true;
                         mode = RootParsingMode::Options;
                     }
@@ -415,6 +425,10 @@ impl Parser {
                 regexp,
             }),
         }
+    }
+
+    fn is_regexp_root_option(s: &str) -> bool {
+        s.eq_ignore_ascii_case("rx") || s.eq_ignore_ascii_case("regexp")
     }
 
     fn is_root_option_keyword(s: &str) -> bool {
